@@ -791,8 +791,16 @@ impl Gen {
             if names.is_empty() {
                 return None;
             }
-            let d = *self.r.pick(&names);
-            self.pool.extend(ents.into_iter().filter(|e| e.des == d));
+            // using a type name also brings its literals (VHDL-2019): make that frequent
+            let tnames: Vec<u32> = names.iter().cloned().filter(|d| (10..20).contains(d)).collect();
+            let d = if !tnames.is_empty() && self.r.chance(1, 3) { *self.r.pick(&tnames) } else { *self.r.pick(&names) };
+            let mut brought: Vec<Ent> = ents.iter().filter(|e| e.des == d).cloned().collect();
+            for e in ents.iter().filter(|e| e.des == d) {
+                if let Kind::Type(_, lits) = &e.kind {
+                    brought.extend(ents.iter().filter(|x| lits.iter().any(|l| l.0 == x.id)).cloned());
+                }
+            }
+            self.pool.extend(brought);
             Some(Item::UseName(p, d))
         }
     }
